@@ -227,6 +227,7 @@ struct Opts {
     run_index: Option<u64>,
     max_wall: Option<u64>,
     mode: Option<String>,
+    embed: Vec<String>,
 }
 
 fn parse_opts() -> Opts {
@@ -250,6 +251,7 @@ fn parse_opts() -> Opts {
         run_index: None,
         max_wall: None,
         mode: None,
+        embed: vec![],
     };
     let mut i = 1;
     while i < args.len() {
@@ -275,6 +277,7 @@ fn parse_opts() -> Opts {
             "--run" => o.run_index = val().parse().ok(),
             "--max-wall" => o.max_wall = val().parse().ok(),
             "--mode" => o.mode = Some(val()),
+            "--embed" => o.embed.push(val()),
             s if !s.starts_with("--") => {
                 if o.cmd == "replay" {
                     o.path = Some(s.to_string())
@@ -823,9 +826,22 @@ fn check<S: Sim>(o: Opts) {
         },
         "assumptions": spec.assumptions,
     });
+    let mut evidence = evidence;
+    // evidence of companion runs (e.g. the small-chunk build of the client sim) is embedded verbatim
+    let mut embedded = vec![];
+    for path in &o.embed {
+        match std::fs::read_to_string(path).ok().and_then(|s| serde_json::from_str::<Value>(&s).ok()) {
+            Some(v) => embedded.push(json!({"file": path, "evidence": v})),
+            None => embedded.push(json!({"file": path, "error": "missing or unreadable"})),
+        }
+    }
+    if !embedded.is_empty() {
+        evidence["coverage"]["companion_runs"] = Value::Array(embedded);
+    }
+    let suffix = std::env::var("VERIF_EVIDENCE_SUFFIX").unwrap_or_default();
     let edir = verif_dir().join("evidence");
     let _ = std::fs::create_dir_all(&edir);
-    let epath = edir.join(format!("{}.json", spec.id));
+    let epath = edir.join(format!("{}{}.json", spec.id, suffix));
     if let Err(e) = std::fs::write(&epath, serde_json::to_string_pretty(&evidence).unwrap()) {
         println!("HARNESS-ERROR: cannot write evidence {epath:?}: {e}");
         std::process::exit(2);
